@@ -227,6 +227,10 @@ def main(argv=None):
     res, skipped = R.run_sharded(SR.generic_worker, [{"prop": PROP, "desc": d, "runs": SR.runs_for(["thl", "exh"], ["any"], flags, "dhs"),
                                                       "max_paths": mp, "budget_s": bs} for d in deep], budget)
     rep.add_results("deep species trees (dup, hgt symbolic; spe = 0, floss = 1)", res, skipped, exhaustive=False)
+    sim = SR.simulated_inputs(rng2, 100 if tier == "quick" else 1500, 5 if tier == "quick" else 6, 6, 0, False)
+    res, skipped = R.run_sharded(SR.generic_worker, [{"prop": PROP, "desc": d, "runs": SR.runs_for(["thl", "exh"], ["any"], flags, "dhs"),
+                                                      "max_paths": mp, "budget_s": bs} for d in sim], budget)
+    rep.add_results("inputs simulated forward from the event model (dup, hgt symbolic; spe = 0, floss = 1)", res, skipped, exhaustive=False)
     hist = [D.random_plain_input(rng2, rng2.randint(3, 4), rng2.randint(2, 4)) for _ in range(8 if tier == "quick" else 60)]
     res, skipped = R.run_sharded(SR.generic_worker, [{"prop": PROP, "desc": d, "runs": SR.history_runs(["thl", "exh"], flags),
                                                       "max_paths": mp, "budget_s": bs} for d in hist], budget)
@@ -248,6 +252,7 @@ def main(argv=None):
         m4.ReconciliationOutput.node_event, m4.ReconciliationOutput._cost_rec)
     bounds["deep"] = (f"{nd} seeded inputs with 3-{5 if tier == 'quick' else 6} object leaves on species trees with 5-{6 if tier == 'quick' else 7} leaves, 70% caterpillars "
                       "(dup, hgt symbolic; spe = 0, floss = 1; thl + exh, any)")
+    bounds["simulated"] = f"{len(sim)} inputs obtained by simulating speciation / duplication / transfer / loss forward along a seeded species tree (3-{5 if tier == 'quick' else 6} leaves)"
     bounds["cross-check"] = f"{nx} seeded 6-7-leaf inputs on deep species trees: min(thl) = min(exh) proven per path (dup, hgt symbolic)"
     bounds["call history"] = f"{len(hist)} seeded 3-4-leaf inputs explored after earlier concrete calls of the same solver in a fresh interpreter"
     rep.bounds = dict(bounds, costs="spe, dup, hgt, floss: all non-negative integers with spe <= dup + 2*floss (no upper bound); "
